@@ -237,6 +237,7 @@ def main():
     outcome_hist = {}
     ndiff = 0
     all_diffs = []
+    corr_only = []
     for (case, klass), om, oi in zip(cases, out_m, out_i):
         if oi == "skipped-after-timeouts":
             continue
@@ -271,10 +272,25 @@ def main():
             known_hit.setdefault(matched["id"], []).append(case)
             continue
         ndiff += 1
-        all_diffs.append(("disagreement", d, {"cases": [case], "model": om, "impl": oi, "class": klass, "key": key}))
+        rp0 = {"cases": [case], "model": om, "impl": oi, "class": klass, "key": key}
+        if hasattr(gen, "property_holds") and gen.property_holds(case, klass, om, oi):
+            # model and implementation differ on this case, but what the property itself demands holds on it (e.g. another
+            # allocation pattern without leak or double free): the correspondence is broken, this case is not a failing input
+            corr_only.append(("correspondence", d + " [the property's own demands hold on this case]", rp0))
+            continue
+        all_diffs.append(("disagreement", d, rp0))
     # report the three shortest failing cases (minimisation by selection: generators emit many sizes of each shape)
     all_diffs.sort(key=lambda v: len(v[2]["cases"][0]))
     violations.extend(all_diffs[:3])
+    if corr_only and not all_diffs:
+        # the correspondence no longer checks and no generated case violates the property itself
+        corr_only.sort(key=lambda v: len(v[2]["cases"][0]))
+        kind, d, rp0 = corr_only[0]
+        rp0 = dict(rp0)
+        rp0["no_failing_input"] = True
+        rp0["correspondence_cases"] = len(corr_only)
+        rp0["relation"] = "extracted model of %s = implementation (differential run); theorems of Props/Properties_%s.v are about that model" % (pid, pid)
+        violations.append((kind, "the implementation no longer corresponds to the model on %d case(s), none of which violates the property's own demands: %s" % (len(corr_only), d), rp0))
 
     # a broken proof obligation (translator, proof, extraction) is not by itself a violation: look harder for a
     # concrete failing input -- a second, larger stream (the thorough generator under another seed, capped) through
